@@ -21,6 +21,7 @@ FULL-STRENGTH STATEMENTS (hold iff `codeCfg.recheck = true`, see `code_safe`):
   held_readers_stay_mapped); a later reader sees every installed commit (later_reader_sees_commit).
 -/
 import LinVerif.Lemmas.C02Read
+import LinVerif.Lemmas.C02TokStep
 import LinVerif.Generated.C02
 
 namespace LinVerif.Props.C02
@@ -30,7 +31,17 @@ open LinVerif.VersionSet LinVerif.TableCache LinVerif.Lemmas.C02
 
 /-- the model variant the current source selects -/
 def codeCfg (threshold : Nat) (rollupOn : Bool) : Cfg :=
-  { recheck := Generated.C02.removeVersionRechecksRef, threshold := threshold, rollupOn := rollupOn }
+  { recheck := Generated.C02.removeVersionRechecksRef, cloneLocked := Generated.C02.commitCloneUnderLock,
+    threshold := threshold, rollupOn := rollupOn }
+
+/-- the current source re-checks the refcount in `removeVersion` (fix b108b0f) -/
+theorem source_rechecks : Generated.C02.removeVersionRechecksRef = true := rfl
+/-- the current source takes the commit's snapshot and clones inside the version-set mutex -/
+theorem source_clone_locked : Generated.C02.commitCloneUnderLock = true := rfl
+theorem tie_commitOutsideLock : Generated.C02.commitOutsideLock = [] := rfl
+theorem tie_commitInsideLock : Generated.C02.commitInsideLock =
+    ["vs.persistEditLogs", "familyVersion.GetSnapshot", "snapshot.GetCurrent().Clone", "editLog.apply",
+     "familyVersion.appendVersion"] := rfl
 
 theorem tie_release : Generated.C02.releaseSteps = Code.release := rfl
 theorem tie_retain : Generated.C02.retainCalls = Code.retain := rfl
@@ -68,26 +79,33 @@ theorem reachable_run {cfg : Cfg} {v0 f0 : Nat} {acts : List Act} {s s' : St}
     next => cases hr
 
 /-- `Safe` holds in every state of every schedule (variant with the re-check). -/
-theorem safe_invariant {cfg : Cfg} {v0 f0 : Nat} {s : St} (hr : cfg.recheck = true)
-    (h : Reachable cfg v0 f0 s) : Safe s := safe_reachable hr h
+theorem safe_invariant {cfg : Cfg} {v0 f0 : Nat} {s : St} (hr : cfg.recheck = true) (hcl : cfg.cloneLocked = true)
+    (h : Reachable cfg v0 f0 s) : Safe s := safe_reachable hr hcl h
 
 /-- if the current source re-checks, every schedule of the code's own model variant is safe -/
 theorem code_safe {t : Nat} {ro : Bool} {v0 f0 : Nat} {s : St}
-    (hfact : Generated.C02.removeVersionRechecksRef = true) (h : Reachable (codeCfg t ro) v0 f0 s) : Safe s :=
-  safe_reachable (cfg := codeCfg t ro) hfact h
+    (hfact : Generated.C02.removeVersionRechecksRef = true) (hfact2 : Generated.C02.commitCloneUnderLock = true)
+    (h : Reachable (codeCfg t ro) v0 f0 s) : Safe s :=
+  safe_reachable (cfg := codeCfg t ro) hfact hfact2 h
+
+/-- UNCONDITIONAL for the current source: every schedule of the model variant selected by the
+regenerated facts is safe (any compaction threshold, rollup on or off, any first ids). -/
+theorem safe_current_source {t : Nat} {ro : Bool} {v0 f0 : Nat} {s : St}
+    (h : Reachable (codeCfg t ro) v0 f0 s) : Safe s :=
+  code_safe source_rechecks source_clone_locked h
 
 /-- `version.ref` = number of open snapshots on the version (the current one gets no extra count) -/
-theorem ref_counts_open_snapshots {cfg : Cfg} {v0 f0 : Nat} {s : St} (hr : cfg.recheck = true)
+theorem ref_counts_open_snapshots {cfg : Cfg} {v0 f0 : Nat} {s : St} (hr : cfg.recheck = true) (hcl : cfg.cloneLocked = true)
     (h : Reachable cfg v0 f0 s) (v : Nat) : s.ref v = (cntOpen s.snap v s.nSnap : Int) :=
-  (safe_reachable hr h).ref_count v
+  (safe_reachable hr hcl h).ref_count v
 
 /-- every open snapshot: version registered, all its tables in the directory, retained readers mapped -/
-theorem open_snapshot_protected {cfg : Cfg} {v0 f0 : Nat} {s : St} (hr : cfg.recheck = true)
+theorem open_snapshot_protected {cfg : Cfg} {v0 f0 : Nat} {s : St} (hr : cfg.recheck = true) (hcl : cfg.cloneLocked = true)
     (h : Reachable cfg v0 f0 s) (i : Nat) (hi : i < s.nSnap) (ho : (s.snap i).st = .opened) :
     (s.snap i).ver ∈ s.active ∧
     (∀ f ∈ (s.ver (s.snap i).ver).nos, f ∈ s.disk) ∧
     (∀ f ∈ (s.snap i).held, (s.cref f).isSome = true) := by
-  have hs := safe_reachable hr h
+  have hs := safe_reachable hr hcl h
   have hact := hs.open_active i hi ho
   refine ⟨hact, hs.files_on_disk _ hact, ?_⟩
   intro f hf
@@ -98,13 +116,13 @@ theorem open_snapshot_protected {cfg : Cfg} {v0 f0 : Nat} {s : St} (hr : cfg.rec
 unfinished writer (pending output already created), by a pending rollup — is in the directory,
 and every reader retained by an open snapshot is mapped. (A step that deleted or unmapped one
 would produce a reachable state violating this.) -/
-theorem no_needed_file_deleted {cfg : Cfg} {v0 f0 : Nat} {s : St} (hr : cfg.recheck = true)
+theorem no_needed_file_deleted {cfg : Cfg} {v0 f0 : Nat} {s : St} (hr : cfg.recheck = true) (hcl : cfg.cloneLocked = true)
     (h : Reachable cfg v0 f0 s) :
     (∀ i, i < s.nSnap → (s.snap i).st = .opened → ∀ f ∈ (s.ver (s.snap i).ver).nos, f ∈ s.disk) ∧
     (∀ j, j < s.nJob → outOnDisk (s.job j).pc = true → ∀ f ∈ outNo (s.job j), f ∈ s.disk ∧ f ∈ s.pending) ∧
     (∀ f ∈ (s.ver s.cur).rollup, f ∈ s.disk) ∧
     (∀ i, i < s.nSnap → (s.snap i).st = .opened → ∀ f ∈ (s.snap i).held, s.cref f ≠ none) := by
-  have hs := safe_reachable hr h
+  have hs := safe_reachable hr hcl h
   refine ⟨fun i hi ho => hs.files_on_disk _ (hs.open_active i hi ho), ?_, hs.rollup_on_disk, hs.held_mapped⟩
   intro j hj hp f hf
   have hb := hs.jobs j hj
@@ -114,36 +132,36 @@ theorem no_needed_file_deleted {cfg : Cfg} {v0 f0 : Nat} {s : St} (hr : cfg.rech
 
 /-- The only step that removes a table from the directory (`deleteSST` of deleteObsoleteFiles)
 removes a table no open snapshot lists, that is no pending output and that no rollup needs. -/
-theorem delete_only_unneeded {cfg : Cfg} {v0 f0 : Nat} {s : St} (hr : cfg.recheck = true)
+theorem delete_only_unneeded {cfg : Cfg} {v0 f0 : Nat} {s : St} (hr : cfg.recheck = true) (hcl : cfg.cloneLocked = true)
     (h : Reachable cfg v0 f0 s) (j : Nat) (hj : j < s.nJob) (hpc : (s.job j).pc = .doEvicted)
     (f : Nat) (rest : List Nat) (htodo : (s.job j).todoDel = f :: rest) :
     jstep cfg s j = some (doRemove s j f rest) ∧
     (∀ i, i < s.nSnap → (s.snap i).st = .opened → f ∉ (s.ver (s.snap i).ver).nos) ∧
     f ∉ s.pending ∧ f ∉ (s.ver s.cur).rollup := by
-  have hs := safe_reachable hr h
+  have hs := safe_reachable hr hcl h
   have hd := (hs.jobs j hj).deleting (by rw [hpc]; rfl) f (by simp [htodo])
   refine ⟨by simp [jstep, hj, hpc, htodo], ?_, hd.1.2.1, hd.2⟩
   intro i hi ho
   exact hd.1.2.2 _ (hs.open_active i hi ho)
 
 /-- `cache.Evict` in deleteObsoleteFiles closes only readers no open snapshot retains. -/
-theorem evict_only_unneeded {cfg : Cfg} {v0 f0 : Nat} {s : St} (hr : cfg.recheck = true)
+theorem evict_only_unneeded {cfg : Cfg} {v0 f0 : Nat} {s : St} (hr : cfg.recheck = true) (hcl : cfg.cloneLocked = true)
     (h : Reachable cfg v0 f0 s) (j : Nat) (hj : j < s.nJob)
     (hpc : (s.job j).pc = .doRolled ∨ (s.job j).pc = .doRemoved)
     (f : Nat) (rest : List Nat) (htodo : (s.job j).todoDel = f :: rest) :
     jstep cfg s j = some (doEvict s j f) ∧
     (∀ i, i < s.nSnap → (s.snap i).st = .opened → f ∉ (s.snap i).held) := by
-  have hs := safe_reachable hr h
+  have hs := safe_reachable hr hcl h
   have hd := (hs.jobs j hj).deleting (by rcases hpc with hpc | hpc <;> rw [hpc] <;> rfl) f (by simp [htodo])
   refine ⟨by rcases hpc with hpc | hpc <;> simp [jstep, hj, hpc, htodo], ?_⟩
   intro i hi ho hmem
   exact hd.1.2.2 _ (hs.open_active i hi ho) (hs.held_files i hi f hmem)
 
 /-- `storeCache.Cleanup` closes only readers nobody retains. -/
-theorem cleanup_only_unreferenced {cfg : Cfg} {v0 f0 : Nat} {s s' : St} (hr : cfg.recheck = true)
+theorem cleanup_only_unreferenced {cfg : Cfg} {v0 f0 : Nat} {s s' : St} (hr : cfg.recheck = true) (hcl : cfg.cloneLocked = true)
     (h : Reachable cfg v0 f0 s) (fs : List Nat) (hst : step cfg s (.cleanup fs) = some s') :
     ∀ f ∈ fs, ∀ i, i < s.nSnap → f ∉ (s.snap i).held := by
-  have hs := safe_reachable hr h
+  have hs := safe_reachable hr hcl h
   intro f hf i hi hmem
   simp only [step] at hst
   split at hst
@@ -160,13 +178,13 @@ theorem cleanup_only_unreferenced {cfg : Cfg} {v0 f0 : Nat} {s s' : St} (hr : cf
 content its version had when the snapshot was taken (= at any earlier state `s` in which it was
 already open), whatever flushes, compactions, rollup commits, file deletions and cache cleanups
 ran in between. -/
-theorem snapshot_stable {cfg : Cfg} {v0 f0 : Nat} {s s' : St} {acts : List Act} (hr : cfg.recheck = true)
+theorem snapshot_stable {cfg : Cfg} {v0 f0 : Nat} {s s' : St} {acts : List Act} (hr : cfg.recheck = true) (hcl : cfg.cloneLocked = true)
     (h : Reachable cfg v0 f0 s) (hrun : run cfg s acts = some s')
     (i : Nat) (hi : i < s.nSnap) (ho' : (s'.snap i).st = .opened) (k : Nat) :
     readKey s' i k = readKey s i k ∧
     readKey s i k = some (contentOf (s.ver (s.snap i).ver) s.content k) := by
-  have hs := safe_reachable hr h
-  have hs' := safe_reachable hr (reachable_run h hrun)
+  have hs := safe_reachable hr hcl h
+  have hs' := safe_reachable hr hcl (reachable_run h hrun)
   have hf := frame_run hrun
   have ho := (hf.snap_open i hi ho').1
   have hi' : i < s'.nSnap := Nat.lt_of_lt_of_le hi hf.nSnap_le
@@ -174,22 +192,22 @@ theorem snapshot_stable {cfg : Cfg} {v0 f0 : Nat} {s s' : St} {acts : List Act} 
   exact ⟨rfl, rfl⟩
 
 /-- a reader retained at `s` by a snapshot that is still open at `s'` is still mapped at `s'` -/
-theorem held_readers_stay_mapped {cfg : Cfg} {v0 f0 : Nat} {s s' : St} {acts : List Act} (hr : cfg.recheck = true)
+theorem held_readers_stay_mapped {cfg : Cfg} {v0 f0 : Nat} {s s' : St} {acts : List Act} (hr : cfg.recheck = true) (hcl : cfg.cloneLocked = true)
     (h : Reachable cfg v0 f0 s) (hrun : run cfg s acts = some s')
     (i : Nat) (hi : i < s.nSnap) (ho' : (s'.snap i).st = .opened) :
     ∀ f ∈ (s.snap i).held, s'.cref f ≠ none := by
-  have hs' := safe_reachable hr (reachable_run h hrun)
+  have hs' := safe_reachable hr hcl (reachable_run h hrun)
   have hf := frame_run hrun
   intro f hmem
   exact hs'.held_mapped i (Nat.lt_of_lt_of_le hi hf.nSnap_le) ho' f ((hf.snap_open i hi ho').2 f hmem)
 
 /-- the tables of an open snapshot's version stay in the directory for as long as it is open -/
-theorem snapshot_files_stay {cfg : Cfg} {v0 f0 : Nat} {s s' : St} {acts : List Act} (hr : cfg.recheck = true)
+theorem snapshot_files_stay {cfg : Cfg} {v0 f0 : Nat} {s s' : St} {acts : List Act} (hr : cfg.recheck = true) (hcl : cfg.cloneLocked = true)
     (h : Reachable cfg v0 f0 s) (hrun : run cfg s acts = some s')
     (i : Nat) (hi : i < s.nSnap) (ho' : (s'.snap i).st = .opened) :
     ∀ f ∈ (s.ver (s.snap i).ver).nos, f ∈ s'.disk := by
-  have hs := safe_reachable hr h
-  have hs' := safe_reachable hr (reachable_run h hrun)
+  have hs := safe_reachable hr hcl h
+  have hs' := safe_reachable hr hcl (reachable_run h hrun)
   have hf := frame_run hrun
   have hi' : i < s'.nSnap := Nat.lt_of_lt_of_le hi hf.nSnap_le
   intro f hmem
@@ -200,9 +218,9 @@ theorem snapshot_files_stay {cfg : Cfg} {v0 f0 : Nat} {s s' : St} {acts : List A
 /-- The current version is the replay of every edit log installed so far (`hist`, newest first):
 commits are never lost or re-ordered (they are serialised by the version-set mutex and each
 clones the version that is current at its swap). -/
-theorem current_is_replay {cfg : Cfg} {v0 f0 : Nat} {s : St} (hr : cfg.recheck = true)
+theorem current_is_replay {cfg : Cfg} {v0 f0 : Nat} {s : St} (hr : cfg.recheck = true) (hcl : cfg.cloneLocked = true)
     (h : Reachable cfg v0 f0 s) : s.ver s.cur = s.hist.foldr (fun e v => applyEdit v e) {} :=
-  (safe_reachable hr h).history
+  (safe_reachable hr hcl h).history
 
 /-- the swap step of a commit records its edit log -/
 theorem swap_records_commit (s : St) (j : Nat) :
@@ -211,13 +229,13 @@ theorem swap_records_commit (s : St) (j : Nat) :
 /-- A reader that starts after a commit completed (its edit log `e` is in the history when the
 reader takes its snapshot) gets a version that lists every table `e` added, unless a later
 installed edit log (a compaction that consumed it) deleted that table. -/
-theorem later_reader_sees_commit {cfg : Cfg} {v0 f0 : Nat} {s s' : St} (hr : cfg.recheck = true)
+theorem later_reader_sees_commit {cfg : Cfg} {v0 f0 : Nat} {s s' : St} (hr : cfg.recheck = true) (hcl : cfg.cloneLocked = true)
     (h : Reachable cfg v0 f0 s) (hst : step cfg s .acquire = some s')
     (later earlier : List Edit) (e : Edit) (hh : s.hist = later ++ e :: earlier)
     (m : FileMeta) (hm : m ∈ e.adds) (hnd : ∀ e' ∈ later, (m.level, m.no) ∉ e'.dels) :
     (s'.snap s.nSnap).st = .opened ∧ (s'.snap s.nSnap).ver = s.cur ∧
     m ∈ (s'.ver (s'.snap s.nSnap).ver).files := by
-  have hs := safe_reachable hr h
+  have hs := safe_reachable hr hcl h
   simp only [step] at hst
   cases hst
   refine ⟨by simp [snapAcquire], by simp [snapAcquire], ?_⟩
@@ -225,6 +243,151 @@ theorem later_reader_sees_commit {cfg : Cfg} {v0 f0 : Nat} {s s' : St} (hr : cfg
     simp [snapAcquire]
   rw [this, hs.history, hh]
   exact mem_replay hm hnd
+
+/-- once a commit's version swap is done its edit log is in the history … -/
+theorem commit_recorded {cfg : Cfg} {v0 f0 : Nat} {s : St} (hr : cfg.recheck = true) (hcl : cfg.cloneLocked = true)
+    (h : Reachable cfg v0 f0 s) (j : Nat) (hj : j < s.nJob) (hp : postSwap (s.job j).pc = true) :
+    (s.job j).edit ∈ s.hist :=
+  ((safe_reachable hr hcl h).jobs j hj).recorded hp
+
+/-- … and stays there along every schedule (any variant) -/
+theorem installed_commit_stays {cfg : Cfg} {s s' : St} {acts : List Act} (hrun : run cfg s acts = some s')
+    (e : Edit) (he : e ∈ s.hist) : e ∈ s'.hist :=
+  (frame_run hrun).hist_grows e he
+
+/-- ALL interleavings of any number of concurrent committers (in particular two overlapping
+flush / compaction / rollup commits on the family): every commit whose swap completed before a
+reader starts — i.e. every `e` in the history — is visible to that reader: each table `e` added is
+listed by the reader's version unless an edit installed after `e` deleted it. -/
+theorem completed_commits_visible {cfg : Cfg} {v0 f0 : Nat} {s s' : St} (hr : cfg.recheck = true)
+    (hcl : cfg.cloneLocked = true) (h : Reachable cfg v0 f0 s) (hst : step cfg s .acquire = some s')
+    (e : Edit) (he : e ∈ s.hist) :
+    ∃ later earlier, s.hist = later ++ e :: earlier ∧
+      ∀ m ∈ e.adds, (∀ e' ∈ later, (m.level, m.no) ∉ e'.dels) → m ∈ (s'.ver (s'.snap s.nSnap).ver).files := by
+  obtain ⟨later, earlier, hh⟩ := List.append_of_mem he
+  exact ⟨later, earlier, hh, fun m hm hnd => (later_reader_sees_commit hr hcl h hst later earlier e hh m hm hnd).2.2⟩
+
+/-- two committers `j ≠ k` that both finished their swap: a reader starting now sees the tables
+of both (flushes add, never delete; nothing installed since deleted them) -/
+theorem two_committers_both_visible {cfg : Cfg} {v0 f0 : Nat} {s s' : St} (hr : cfg.recheck = true)
+    (hcl : cfg.cloneLocked = true) (h : Reachable cfg v0 f0 s) (hst : step cfg s .acquire = some s')
+    (j k : Nat) (hj : j < s.nJob) (hk : k < s.nJob)
+    (hpj : postSwap (s.job j).pc = true) (hpk : postSwap (s.job k).pc = true)
+    (hnodel : ∀ e' ∈ s.hist, e'.dels = []) :
+    (∀ m ∈ (s.job j).edit.adds, m ∈ (s'.ver (s'.snap s.nSnap).ver).files) ∧
+    (∀ m ∈ (s.job k).edit.adds, m ∈ (s'.ver (s'.snap s.nSnap).ver).files) := by
+  have key : ∀ e ∈ s.hist, ∀ m ∈ e.adds, m ∈ (s'.ver (s'.snap s.nSnap).ver).files := by
+    intro e he m hm
+    obtain ⟨later, earlier, hh, hv⟩ := completed_commits_visible hr hcl h hst e he
+    apply hv m hm
+    intro e' he'
+    have := hnodel e' (by rw [hh]; simp [he'])
+    simp [this]
+  exact ⟨key _ (commit_recorded hr hcl h j hj hpj), key _ (commit_recorded hr hcl h k hk hpk)⟩
+
+/-! ### content level across compactions — for ANY merger satisfying the contract `MergerOk`
+
+`cfg.merge` is the family's merger (what a compaction writes for the contents of its inputs).
+`snapshot_stable` above already holds for every merger whatsoever (it never looks at `cfg.merge`).
+What needs the contract "for every key the merged table holds exactly the tokens of its inputs"
+is that a compaction does not change what the CURRENT version shows. -/
+
+/-- Over all schedules: for every key the current version shows exactly (as a multiset) the value
+tokens of the flush commits whose version swap is done (`s.flushed`), however many compactions
+(merge or trivial move), rollup commits and overlapping committers ran. -/
+theorem current_shows_flushed_tokens {cfg : Cfg} {v0 f0 : Nat} {s : St} (hm : MergerOk cfg.merge)
+    (hr : cfg.recheck = true) (hcl : cfg.cloneLocked = true) (h : Reachable cfg v0 f0 s) (k : Nat) :
+    (vTokens (s.ver s.cur).files s.content k).Perm (s.flushed.flatMap (fun f => tokensAt (s.content f) k)) :=
+  (tok_reachable hm hr hcl h).tokens k
+
+/-- a flush commit's swap records its table as flushed -/
+theorem swap_records_flush (s : St) (j : Nat) (hk : (s.job j).kind = .flush) :
+    (jSwap s j).flushed = outNo (s.job j) ++ s.flushed := by
+  simp [jSwap, noteFlush, hk, swapVersion, setPc, St.setJob]
+
+/-- A reader that starts later sees, for every key, exactly the tokens of all flush commits that
+completed (swapped) before it started — compactions in between notwithstanding. -/
+theorem later_reader_sees_tokens {cfg : Cfg} {v0 f0 : Nat} {s s' : St} (hm : MergerOk cfg.merge)
+    (hr : cfg.recheck = true) (hcl : cfg.cloneLocked = true) (h : Reachable cfg v0 f0 s)
+    (hst : step cfg s .acquire = some s') (k : Nat) :
+    (vTokens (s'.ver (s'.snap s.nSnap).ver).files s'.content k).Perm
+      (s.flushed.flatMap (fun f => tokensAt (s.content f) k)) := by
+  simp only [step] at hst
+  cases hst
+  have : vTokens ((snapAcquire s none).ver ((snapAcquire s none).snap s.nSnap).ver).files (snapAcquire s none).content k =
+      vTokens (s.ver s.cur).files s.content k := by simp [snapAcquire]
+  rw [this]
+  exact current_shows_flushed_tokens hm hr hcl h k
+
+/-- the version swap of a compaction (merge or trivial move) leaves every key's tokens unchanged -/
+theorem compaction_swap_keeps_tokens {cfg : Cfg} {v0 f0 : Nat} {s : St} (hm : MergerOk cfg.merge)
+    (hr : cfg.recheck = true) (hcl : cfg.cloneLocked = true) (h : Reachable cfg v0 f0 s)
+    (j : Nat) (hj : j < s.nJob) (hpc : (s.job j).pc = .cSnapped) (hk : (s.job j).kind = .compact) (k : Nat) :
+    (vTokens ((jSwap s j).ver (jSwap s j).cur).files (jSwap s j).content k).Perm
+      (vTokens (s.ver s.cur).files s.content k) := by
+  have hstep : step cfg s (.jstep j) = some (jSwap s j) := by simp [step, jstep, hj, hpc]
+  have h1 := current_shows_flushed_tokens hm hr hcl (Reachable.step _ h hstep) k
+  have h2 := current_shows_flushed_tokens hm hr hcl h k
+  have hfl : (jSwap s j).flushed = s.flushed := by simp [jSwap, noteFlush, hk, swapVersion, setPc, St.setJob]
+  have hc : (jSwap s j).content = s.content := rfl
+  rw [hfl, hc] at h1
+  exact h1.trans h2.symm
+
+/-- the contract is satisfiable (a merger that concatenates the inputs' tokens per key) -/
+theorem merger_contract_satisfiable : MergerOk collectMerge := collectMerge_ok
+
+/-- the model variant of the current source with an arbitrary merger -/
+def codeCfgWith (merge : List Content → Content) (threshold : Nat) (rollupOn : Bool) : Cfg :=
+  { codeCfg threshold rollupOn with merge := merge }
+
+/-- UNCONDITIONAL for the current source, any contract-abiding merger: what the current version
+shows for a key is exactly what the completed flush commits wrote -/
+theorem current_source_shows_flushed_tokens {merge : List Content → Content} (hm : MergerOk merge)
+    {t : Nat} {ro : Bool} {v0 f0 : Nat} {s : St} (h : Reachable (codeCfgWith merge t ro) v0 f0 s) (k : Nat) :
+    (vTokens (s.ver s.cur).files s.content k).Perm (s.flushed.flatMap (fun f => tokensAt (s.content f) k)) :=
+  current_shows_flushed_tokens (cfg := codeCfgWith merge t ro) hm source_rechecks source_clone_locked h k
+
+/-- the table numbers of a version are pairwise distinct; at most one compaction runs at a time -/
+theorem version_tables_distinct {cfg : Cfg} {v0 f0 : Nat} {s : St} (hm : MergerOk cfg.merge)
+    (hr : cfg.recheck = true) (hcl : cfg.cloneLocked = true) (h : Reachable cfg v0 f0 s) (v : Nat) :
+    (s.ver v).nos.Nodup :=
+  (tok_reachable hm hr hcl h).nodup v
+
+/-! ### reader-cache cleanup as a nondeterministic step (LRU order / TTL not modelled) -/
+
+/-- `Cleanup` may close ANY set of entries whose ref is 0 — whatever the LRU order and the expiry
+times are, the entries it actually closes form such a set (regenerated guard `ref-zero, expired`). -/
+theorem cleanup_enabled_iff (cfg : Cfg) (s : St) (fs : List Nat) :
+    (∃ s', step cfg s (.cleanup fs) = some s') ↔ ∀ f ∈ fs, s.cref f = some 0 := by
+  simp only [step]
+  constructor
+  · rintro ⟨s', hs⟩
+    split at hs
+    next hc =>
+      intro f hf
+      rw [List.all_eq_true] at hc
+      simpa [canClean] using hc f hf
+    next => cases hs
+  · intro hall
+    have : fs.all (canClean s.cref) = true := by
+      rw [List.all_eq_true]; intro f hf; simp [canClean, hall f hf]
+    exact ⟨_, by rw [if_pos this]⟩
+
+/-- whichever unreferenced entries a cleanup closes, every reader retained by an open snapshot
+stays mapped, and the state stays `Safe` -/
+theorem cleanup_any_choice_keeps_held_readers {cfg : Cfg} {v0 f0 : Nat} {s s' : St} (hr : cfg.recheck = true)
+    (hcl : cfg.cloneLocked = true) (h : Reachable cfg v0 f0 s) (fs : List Nat)
+    (hst : step cfg s (.cleanup fs) = some s') :
+    Safe s' ∧ ∀ i, i < s.nSnap → (s.snap i).st = .opened → ∀ f ∈ (s.snap i).held, s'.cref f ≠ none := by
+  have hs' := safe_step hr hcl (safe_reachable hr hcl h) hst
+  refine ⟨hs', ?_⟩
+  intro i hi ho f hf
+  have hsnap : s'.snap = s.snap ∧ s'.nSnap = s.nSnap := by
+    simp only [step] at hst
+    split at hst
+    · cases hst; exact ⟨rfl, rfl⟩
+    · cases hst
+  exact hs'.held_mapped i (by rw [hsnap.2]; exact hi) (by rw [hsnap.1]; exact ho) f (by rw [hsnap.1]; exact hf)
 
 /-! ### non-vacuity: a non-trivial reachable state of the safe variant -/
 
@@ -328,6 +491,51 @@ theorem snapshot_not_stable :
       obtain ⟨⟨⟨⟨a, b⟩, c⟩, d⟩, e⟩ := h1
       refine ⟨s, s', _, reachable_run Reachable.init hr, hr', a, b, c, ?_⟩
       rw [e]; intro hcontra; rw [← hcontra] at d; cases d
+
+/-! #### commits outside the version-set mutex (variant `cloneLocked = false`): lost update -/
+
+/-- snapshot + Clone before `vs.mutex.Lock()` -/
+def unlockedCloneCfg : Cfg := { recheck := true, cloneLocked := false, threshold := 2, rollupOn := false }
+
+/-- two flushes are ready; both clone the same base version; A installs, then B installs its
+clone of the old base: A's completed commit is gone from the current version. -/
+def lostUpdateActs : List Act :=
+  [.spawn .flush [(1, [10])], .spawn .flush [(1, [11])], .jstep 0, .jstep 0, .jstep 1, .jstep 1, .jstep 0, .jstep 1] ++
+  List.replicate 9 (.jstep 0) ++ List.replicate 9 (.jstep 1) ++ [.acquire]
+
+theorem lost_update_outcome :
+    (match run unlockedCloneCfg (St.init 0 2) lostUpdateActs with
+     | some s => decide ((s.job 0).pc = .done) && decide ((s.job 1).pc = .done) &&
+         decide ((s.snap 2).st = .opened) && !((s.ver (s.snap 2).ver).nos.contains 2) &&
+         (s.hist.any (fun e => e.adds.any (fun m => m.no == 2))) && (readKey s 2 1 == some [(3, [11])])
+     | none => false) = true := by decide
+
+/-- `later_reader_sees_commit` fails when commits clone outside the mutex: both flush commits
+completed, the reader starts afterwards, and table 2 (token 10) is not in its version. -/
+theorem later_reader_misses_commit :
+    ∃ s, Reachable unlockedCloneCfg 0 2 s ∧ (s.job 0).pc = .done ∧ (s.snap 2).st = .opened ∧
+      (∃ e ∈ s.hist, ∃ m ∈ e.adds, m.no = 2) ∧ 2 ∉ (s.ver (s.snap 2).ver).nos ∧
+      s.ver s.cur ≠ s.hist.foldr (fun e v => applyEdit v e) {} := by
+  have h := lost_update_outcome
+  cases hr : run unlockedCloneCfg (St.init 0 2) lostUpdateActs with
+  | none => rw [hr] at h; cases h
+  | some s =>
+    rw [hr] at h
+    simp only [Bool.and_eq_true, decide_eq_true_eq, Bool.not_eq_true', List.any_eq_true, beq_iff_eq] at h
+    obtain ⟨⟨⟨⟨⟨h1, _⟩, h3⟩, h4⟩, ⟨e, he, m, hm, hmn⟩⟩, _⟩ := h
+    have hnot : 2 ∉ (s.ver (s.snap 2).ver).nos := by
+      intro hmem; simp [List.contains_eq_mem, hmem] at h4
+    refine ⟨s, reachable_run Reachable.init hr, h1, h3, ⟨e, he, m, hm, hmn⟩, hnot, ?_⟩
+    -- the replay of the history lists table 2, the current version does not
+    have hv : (run unlockedCloneCfg (St.init 0 2) lostUpdateActs).map
+        (fun s => decide ((s.snap 2).ver = s.cur) &&
+          ((s.hist.foldr (fun e v => applyEdit v e) ({} : VData)).nos.contains 2)) = some true := by decide
+    rw [hr] at hv
+    simp only [Option.map_some, Option.some.injEq, Bool.and_eq_true, decide_eq_true_eq] at hv
+    obtain ⟨hcur, hrep⟩ := hv
+    intro heq
+    rw [hcur, heq] at hnot
+    exact hnot (by simpa [List.contains_eq_mem] using hrep)
 
 end Neg
 
